@@ -33,7 +33,11 @@ RULE = ('exhaustive box: line width w in 1..5 x sequence length n in 0..11 x {LF
         'again, add calls without files first (`sugar index create`) and later) / reopen / get / iter calls with mixed lists / len / '
         'files, after every add the index file is read back, at the end every '
         'record is queried; every output is compared with the state machine model); corpus = witnesses of F11-F13, F15, F16, F29 as a '
-        'machine run. '
+        'machine run; a whole-object stream (24 file sets quick / 150 thorough, relational, no model: protein records with stretches of '
+        'letters that are also nucleotide codes, records that are protein by one letter, nucleotide records; windows at the segment '
+        'borders, one residue more or less, clipped and empty ranges: get((id,i,j)), iter([(id,i,j), id]), get(id)[i:j], '
+        'get(id)[:, i:j] and read(file)[id][i:j] must agree in id, header, residues, sequence TYPE and metadata names, in both '
+        'modes, same object and reopened). '
         'non-trivial = distinct case whose queries cross a line break, are clipped, start beyond the end, hit an empty record, '
         'use CRLF or a file without final newline')
 TRUSTED = ['mmap and dbm (dbm.dumb here) keeping the bytes / values they are given; binary = dbm = reopened is also checked relationally on '
@@ -1354,6 +1358,138 @@ F16_WITNESS = {'_kind': 'witness-F16', 'db': True, 'reopen': True, 'addmode': 0,
                'queries': [Q(0, 'header')]}
 
 
+# ----------------------------------------------------------------------------- the whole returned object (sequence type, metadata)
+
+NT_LETTERS = 'ACGTRYSWKMBDHVN.-'               # letters that may occur in nucleotide AND in protein records
+AA_ONLY = 'EFILPQZJOX*'                        # letters that occur in protein records only
+AA_LETTERS = 'ACDEFGHIKLMNPQRSTVWY'
+
+
+def _seg(rng, alpha, n):
+    return ''.join(rng.choice(alpha) if rng.random() < 0.8 else rng.choice(alpha).lower() for _ in range(n))
+
+
+def seqtype_case(rng):
+    """file set whose records are a mix of kinds of residues: protein records with stretches made of letters that are also
+    nucleotide codes, records that are 'protein' because of one letter, nucleotide records; the windows of interest (segment
+    borders, one residue more on either side, whole record, clipped and empty ranges) come with the case as (id, i, j) queries"""
+    used, files, qs = set(), [], []
+    for fk in range(rng.choice([1, 1, 2])):
+        recs = []
+        for rk in range(rng.choice([1, 2, 3])):
+            kind = rng.choice(['protein', 'protein', 'one-letter', 'nt', 'aa-only'])
+            segs = []
+            if kind == 'protein':
+                for _ in range(rng.choice([2, 3, 4, 5])):
+                    segs.append(_seg(rng, rng.choice([NT_LETTERS, 'ACGT', AA_ONLY, AA_LETTERS, AA_LETTERS]), rng.choice([1, 2, 5, 11, 12, 30])))
+                if not any(ch.upper() in AA_ONLY for s in segs for ch in s):
+                    segs.insert(rng.randrange(len(segs) + 1), _seg(rng, AA_ONLY, rng.choice([1, 3])))
+            elif kind == 'one-letter':
+                segs = [_seg(rng, NT_LETTERS, rng.choice([0, 1, 7, 20])), _seg(rng, AA_ONLY, 1), _seg(rng, NT_LETTERS, rng.choice([0, 1, 7, 20]))]
+            elif kind == 'nt':
+                segs = [_seg(rng, NT_LETTERS, rng.choice([0, 1, 9, 25])), _seg(rng, 'ACGT', rng.choice([0, 3, 14]))]
+            else:
+                segs = [_seg(rng, AA_ONLY, rng.choice([1, 4, 13]))]
+            seq = ''.join(segs)
+            r = {'id': ('p%d' if kind != 'nt' else 'n%d') % len(used), 'desc': rng.choice(['', ' protein', ' x y', '\tq']), 'seq': seq,
+                 'w': rng.choice([1, 3, 5, 7, 10, 60, 80])}
+            used.add(r['id'])
+            recs.append(r)
+            n, b, cuts = len(seq), 0, [0]
+            for s in segs:
+                b += len(s)
+                cuts.append(b)
+            wins = {(None, None), (0, n), (0, n + 3), (n, n + 2), (max(n - 1, 0), n + 1), (None, max(n // 2, 1)), (n // 2, None)}
+            for a in range(len(cuts)):
+                for z in range(a + 1, len(cuts)):
+                    for i, j in ((cuts[a], cuts[z]), (cuts[a] - 1, cuts[z]), (cuts[a], cuts[z] + 1), (cuts[a] + 1, cuts[z] - 1)):
+                        if 0 <= i < j:
+                            wins.add((i, j))
+            wins = sorted((w for w in wins if w[0] is None or w[1] is None or w[0] < w[1]), key=repr)
+            rng.shuffle(wins)
+            for i, j in wins[:12]:
+                qs.append(Q(0, r['id'], i, j))
+        files.append({'crlf': rng.random() < 0.4, 'final': rng.random() < 0.7, 'recs': recs})
+    return {'_kind': 'protein-window', 'db': False, 'reopen': False, 'addmode': 0, 'files': files, 'queries': qs}
+
+
+def _whole(s):
+    """everything a caller can see of a returned BioSeq: id, header, residues, sequence type, names of the metadata"""
+    return [_b(s.id), _b(s.meta._fasta.header), str(s), s.type, sorted(s.meta.keys())]
+
+
+def _seqtype_checks(rng, tier, cov):
+    """'the index returns the same sequence as reading the file and slicing [i:j]; whole-record and range queries agree', for the
+    WHOLE object (BioSeq.__eq__ does not look at the type): get((id, i, j)), iter((id, i, j)), get(id)[i:j], get(id)[:, i:j] and
+    read(file)[id][i:j] must be indistinguishable, in both modes, on the same object and on a reopened index"""
+    import sugar
+    import warnings
+    nwin = naawin = nbad = 0
+    for k in range(150 if tier == 'thorough' else 24):
+        if nbad >= 3:
+            break
+        c = seqtype_case(rng)
+        recs = {r['id']: r for f in c['files'] for r in f['recs']}
+        for mode, reopen in (('binary', False), ('db', True)) if k % 2 else (('db', False), ('binary', True)):
+            d = tempfile.mkdtemp(prefix='C09-', dir='/tmp')
+            idx = None
+            try:
+                os.environ['XDG_CACHE_HOME'] = os.path.join(d, 'cache')
+                with warnings.catch_warnings():
+                    warnings.simplefilter('ignore')
+                    seqs = {}
+                    for i, f in enumerate(c['files']):
+                        p = os.path.join(d, 'f%d.fasta' % i)
+                        with open(p, 'wb') as fh:
+                            fh.write(render_file(f))
+                        for x in sugar.read(p, fmt='fasta'):
+                            seqs[x.id] = x
+                    idx = sugar.FastaIndex(os.path.join(d, 'i.sugarindex'), create=True, mode=mode)
+                    idx.add(os.path.join(d, 'f*.fasta'), silent=True)
+                    if reopen:
+                        if mode == 'db':
+                            idx.db.close()
+                        idx = sugar.FastaIndex(os.path.join(d, 'i.sugarindex'))
+                    bad = None
+                    for q in c['queries']:
+                        id_, i, j = q['id'], q['i'], q['j']
+                        want_data = rec_seq(recs[id_]).upper()[i:j]
+                        x = seqs.get(id_)
+                        if x is None:
+                            bad = 'read(file) has no record %r' % id_
+                            break
+                        whole = idx.get(id_)
+                        forms = [('read(file)[id][i:j]', _whole(x[i:j])),
+                                 ('get((id,i,j))', _whole(idx.get((id_, i, j))[0])),
+                                 ('iter([(id,i,j), id])', _whole(list(idx.iter([(id_, i, j), id_]))[0])),
+                                 ('get(id)[i:j]', _whole(whole[0][i:j])),
+                                 ('get(id)[:, i:j]', _whole(whole[:, i:j][0]))]
+                        nwin += 1
+                        naawin += forms[0][1][3] != x.type
+                        if _whole(whole[0]) != _whole(x):
+                            bad = 'record %r: get(id) %r, read(file)[id] %r' % (id_, _whole(whole[0]), _whole(x))
+                        elif forms[0][1][2] != want_data or forms[0][1][0] != id_:
+                            bad = 'window (%r, %r) of %r: read(file)[id][i:j] %r, the file has %r' % (i, j, id_, forms[0][1], want_data)
+                        elif any(v != forms[0][1] for _, v in forms):
+                            bad = 'window (%r, %r) of %r: ' % (i, j, id_) + ', '.join('%s %r' % nv for nv in forms)
+                        if bad:
+                            c = dict(c, queries=[q])
+                            break
+                if bad:
+                    nbad += 1
+                    yield {'case': dict(c, db=(mode == 'db'), reopen=reopen), 'impl': bad, 'spec': bad}
+                    break
+            finally:
+                if idx is not None and mode == 'db':
+                    try:
+                        idx.db.close()
+                    except Exception:
+                        pass
+                shutil.rmtree(d, ignore_errors=True)
+    cov['seqtype_windows'] = nwin
+    cov['seqtype_windows_with_type_other_than_record'] = naawin
+
+
 def extra_checks(rng, tier, cov):
     """the relational checks; an exception inside them (the real code raising where it must answer) is a violation, not a crash"""
     try:
@@ -1448,10 +1584,10 @@ def _extra_checks(rng, tier, cov):
                     g = idx.get(id_)[0]
                     n = len(x)
                     h = idx.get((id_, 1, n + 2))[0]
-                    if not (g == x) or g.meta._fasta.header != x.meta._fasta.header:
-                        bad = 'get(%r) != read(file)[%r]: header %r vs %r' % (id_, id_, g.meta._fasta.header, x.meta._fasta.header)
-                    elif not (h == x[1:n + 2]):
-                        bad = 'get((%r, 1, %d)) != read(file)[%r][1:%d]: %r vs %r' % (id_, n + 2, id_, n + 2, h, x[1:n + 2])
+                    if not (g == x) or g.meta._fasta.header != x.meta._fasta.header or g.type != x.type:
+                        bad = 'get(%r) != read(file)[%r]: header %r vs %r, type %r vs %r' % (id_, id_, g.meta._fasta.header, x.meta._fasta.header, g.type, x.type)
+                    elif not (h == x[1:n + 2]) or h.type != x[1:n + 2].type:
+                        bad = 'get((%r, 1, %d)) != read(file)[%r][1:%d]: %r (type %s) vs %r (type %s)' % (id_, n + 2, id_, n + 2, h, h.type, x[1:n + 2], x[1:n + 2].type)
                     if bad:
                         break
                 if mode == 'db':
@@ -1463,6 +1599,7 @@ def _extra_checks(rng, tier, cov):
             finally:
                 shutil.rmtree(d, ignore_errors=True)
     cov['bioseq_equality_checks'] = neq
+    yield from _seqtype_checks(rng, tier, cov)
     # progress bar branch of the scanner (fastaindex.py:44-47,79-86): tqdm is not installed here, so a stand-in is put into
     # the module attribute for one add() call without silent; the advertised total and the summed updates must be the file
     # size, one update per record, and the index must answer as usual
@@ -1607,8 +1744,9 @@ LEVEL_TEXT = ('Machine-checked Coq theorems (all unbounded unless said otherwise
 LEVEL_NOTE = ('Trusted / tested only: mmap and dbm (dbm.dumb here) keeping the bytes / values they were given (dbm is a key-value map in the '
               'model; binarysearchfile 0.2.0 is modelled and proved about since round 7); CPython text layer (universal newlines are not '
               'modelled: the reader model splits at LF, which gives the same stripped lines on files without a lone CR); add(seek=N) '
-              '(exercised relationally, not modelled); BioSeq metadata and query forms (list / iterators / several ids per call) are '
-              'relational streams. Open findings excluded from wf_C09 / wf_hist_C09: F15 (dbm line length >= 65536; pack_iff / '
+              '(exercised relationally, not modelled); BioSeq metadata, the sequence type (nt / aa, which sugar infers from the residues of the returned window: seq.py, outside '
+              'the anchored files) and query forms (list / iterators / several ids per call) are relational streams without model '
+              '(the whole-object stream compares index range answers with read(file)[id][i:j] and get(id)[i:j] incl. type). Open findings excluded from wf_C09 / wf_hist_C09: F15 (dbm line length >= 65536; pack_iff / '
               'stored_db_iff state it exactly), F16 (dbm id "header": the model keeps the header under that key like the code). F51 (found by the '
               'history stream of this round, fixed in /repo d6a9af0): a dbm index that was opened again was read-only, add() on it raised; '
               'reopen -> add histories are inside the domain in both modes now, the witness is in corpus/C09. '
